@@ -94,6 +94,9 @@ class Machine(object):
     def apply(self, op):
         raise NotImplementedError
 
+    def after_op(self, op):
+        """Invariants evaluated after every op (default: none)."""
+
     def finish(self):
         pass
 
@@ -123,6 +126,7 @@ def execute(machine_cls, seed, knobs, ops, max_ops=None, realfs_root=None):
             if max_ops is not None and i >= max_ops:
                 break
             m.apply(op)
+            m.after_op(op)
         i = len(ops)
         m.finish()
     except Violation as v:
